@@ -24,7 +24,9 @@ DATE = re.compile(rb" on \d{4}-\d\d-\d\dT[0-9:.+-]+ ")
 # ----------------------------------------------------------------------------- (a) model correspondence
 
 def fortran_files(files):
-    return sorted(f for f in files if f.endswith((".f90", ".F90", ".f", ".for")))
+    """the files find_all_files selects (the generated projects enable *.inc as an extra file type when
+    they contain such files)"""
+    return sorted(f for f in files if f.endswith((".f90", ".F90", ".f", ".for", ".inc")))
 
 
 def nat_list(l):
@@ -89,7 +91,7 @@ def collision_knobs(rng):
 
 
 def model_projects(chk, rng):
-    n = 5 if chk.tier == "quick" else 16
+    n = 6 if chk.tier == "quick" else 16
     out = []
     # the refutation witness of Props/C12.v, as a real project, always first
     out.append(("witness", {"src/a.f90": "module ma\n  integer :: x\n    !! doc of x in a\nend module ma\n",
@@ -101,6 +103,8 @@ def model_projects(chk, rng):
         out.append(("c12proj", files, meta))
     for i in range(n):
         out.append(("program", G.render_project(G.gen_project(rng, collision_knobs(rng))), {}))
+    files, meta = P.gen(rng, nfiles=2, clash=True, extra=True)
+    out.append(("c12proj-extra", files, meta))
     return out
 
 
@@ -112,6 +116,8 @@ def model_correspondence(chk, rng):
     for kind, files, meta in model_projects(chk, rng):
         order0 = fortran_files(files)
         opts = {"search": rng.choice(["true", "false"]), "incl_src": rng.choice(["true", "false"])}
+        if meta.get("extra"):
+            opts.update({"extra_filetypes": "inc !", "incl_src": "true"})
         jobs.append((kind, files, meta, order0, opts, perms_for(rng, len(order0), chk.tier)))
     with ProcessPoolExecutor(max_workers=8, mp_context=multiprocessing.get_context("fork")) as ex:
         futs = [ex.submit(R.trace_project, files, order0, perms, opts)
@@ -270,7 +276,7 @@ def e2e_plan(chk, rng):
     quick = chk.tier == "quick"
     plan = []
     flags = [dict(), dict(clash=True), dict(multiuse=True), dict(clash=True, modclash=True, multiuse=True),
-             dict(), dict(clash=True, multiuse=True)]
+             dict(), dict(clash=True, multiuse=True), dict(extra=True), dict(modclash=True)]
     if not quick:
         flags = flags * 4 + [dict(children=True), dict(clash=True, children=True, multiuse=True)] * 2
     for i, fl in enumerate(flags):
@@ -279,6 +285,8 @@ def e2e_plan(chk, rng):
                 "externalize": "true" if i % 3 == 0 else "false"}
         if i == 0:
             opts["print_creation_date"] = "true"
+        if meta.get("extra"):
+            opts.update({"extra_filetypes": "inc !", "incl_src": "true"})
         s0 = rng.randrange(1000)
         seeds = [s0] + [rng.randrange(1000) for _ in range(2 if quick else 5)]
         runs = [("seed", s, {}, None) for s in seeds]
@@ -443,6 +451,8 @@ def findings(chk, rng):
 def run(chk):
     chk.build(["theories/Corr/C12.vo", "theories/Props/C12.vo"])
     chk.props("theories/Props/C12.v", THEOREMS)
+    if chk.tier == "thorough":
+        chk.coqchk(["Ford.Props.C12"])
     rng = chk.rng
     t = time.time()
     model_correspondence(chk, rng)
